@@ -60,4 +60,13 @@ PROPS = {
                  "AllowOriginFunc, Skipper and the non-origin CORS headers (methods, headers, max-age) are outside the model"],
         assumptions=["allow-list entries containing ':' have the shape scheme://rest (their first ':' starts '://'); for other entries matchSubdomain compares a different scheme split than the pattern text (documented restriction of C11_only_allowed)"],
     ),
+    "C18": dict(
+        n_quick=1500, n_thorough=40000, incoq=40,
+        level_text="Theorems C18_* (Props/C18.v): for every timed history over any identifiers on a monotone clock, the store with expiry/cleanup answers exactly like 'one never-evicted token bucket per identifier' when ExpiresIn*rate >= burst (simulation proof); an identifier's answers depend on its own sub-history only; every window of a bucket history admits at most burst + rate*elapsed (potential-function invariant, nia); refusal only when the own allowance is below one token; middleware: handler iff admitted else 429. Model compared with the real store+middleware on a virtual clock.",
+        technique="Coq simulation/refinement proof to a per-identifier bucket spec + potential-function invariant + differential correspondence on a virtual clock",
+        trusted=["golang.org/x/time/rate modelled as an exact token bucket (integer scaled); exact on the harness's 2^-9 s time grid with integer rates; its sub-nanosecond truncation slack is the dependency's",
+                 "each Allow call is one atomic step with ONE clock reading (sync.Mutex sections atomic; the second timeNow() read and real-clock interleavings are not modelled: partial)",
+                 "verif hook VerifSetClock installs the virtual clock"],
+        assumptions=["clock readings are non-decreasing", "ExpiresIn*rate >= burst (as the property states)"],
+    ),
 }
